@@ -13,7 +13,10 @@ META = {
              "restores the offset after a failed header rewrite and never puts more than 65535 entries into a block hides and drops "
              "nothing — for every buffer length, every result stream over the flush and any number of writes during the outage "
              "(each may trigger a flush that fails again), then the fault clears, more is written and synced; flush_chunks_bounded: "
-             "every block it puts on disk holds <= 65535 entries and an exact count field.  Witnesses: failed_write_drops_entries "
+             "every block it puts on disk holds <= 65535 entries and an exact count field; delete_sticks_of_repaired (clause DeleteSticks: "
+             "WriteEntry reports success once the entry is queued, so a delete after a failed flush writes its tombstone) and "
+             "close_retry_of_repaired / closeWF_spec (clause CloseRetry: a failed Close leaves the writer usable, more is written, Close "
+             "again, everything loads).  Witnesses: deleted_record_resurrects, failed_close_kills_writer, failed_write_drops_entries "
              "(buffer emptied before the write, no rollback) and oversized_block_unreadable (rollback without splitting: a buffer of "
              "65536 entries becomes one block with a wrapped EntryCount; the reader rejects it and hides the durable block in front "
              "of it) refute the statement; classify_sound decides from the extracted facts."),
@@ -40,6 +43,11 @@ FINDINGS = {
                                                  "buffer grows past 65535 entries, CompressEntries stores uint16(len(entries)) in the block "
                                                  "header, and the block written once the fault clears carries a wrapped count: ParseBlock "
                                                  "rejects it and the whole file, earlier durable records included, can no longer be loaded",
+    "C25-deleted-record-resurrects": "WriteEntry reports the error of the flush it triggers although the entry stays queued: the swamp gets no "
+                                     "file pointer, a later Delete writes no tombstone, the next Sync flushes the restored insert and the "
+                                     "deleted record is back after reload",
+    "C25-failed-close-kills-writer": "a Close that fails closes the descriptor while the chronicler keeps the writer: every later "
+                                     "Write/Sync/Close fails with 'file already closed' although the fault cleared",
     "C25-fsync-error": "an fsync error made data unreadable",
     "C25-unexplained-loss": "records missing after a fault-free run",
 }
@@ -50,14 +58,45 @@ def spec_scan(ops, impl):
     succeeded, a fresh load returns every record handed to Write."""
     bad = []
     spec = {}
+    written, durable = [], 0
     for i, op in enumerate(ops):
         if i >= len(impl):
             break
         f = op.split(" ")
         if f[0] == "case":
             spec = {}
+            written, durable = [], 0
         elif f[0] == "act" and f[1] == "w":
             S.apply_items(spec, f[2])
+            for it in f[2].split(","):
+                body, _, times = it.partition("*")
+                written.extend([body] * (int(times) if times else 1))
+        elif f[0] == "act" and f[1] in ("sync", "close") and impl[i] == "ok ok":
+            durable = len(written)
+        elif f[0] == "act" and f[1] == "probe":
+            # during the fault as well: a reader sees a flush boundary that holds everything a Sync/Close has acknowledged
+            got = impl[i].split(" ")[1] if " " in impl[i] else "?"
+            ok = False
+            for m in range(len(written), durable - 1, -1):
+                st = {}
+                S.apply_items(st, ",".join(written[:m])) if m else None
+                if S.fmt_state(st) == got:
+                    ok = True
+                    break
+            if not ok:
+                bad.append((i, "a reader that opens the file at this moment (writer still open, fault possibly in progress) sees %s: "
+                               "not a state that holds the %d entries acknowledged by Sync/Close so far" % (got, durable), "loss"))
+        elif f[0] == "sw" and f[1] == "new":
+            spec = {}
+        elif f[0] == "sw" and f[1] == "save":
+            spec[int(f[2])] = f[3]
+        elif f[0] == "sw" and f[1] == "del":
+            spec.pop(int(f[2]), None)
+        elif f[0] == "sw" and f[1] == "load":
+            got = impl[i].split(" ")[1] if " " in impl[i] else "?"
+            if got != S.fmt_state(spec):
+                bad.append((i, "a real swamp (write ticks, file-pointer events on) was closed after the fault had cleared; a fresh load "
+                               "returns %s, the swamp held %s" % (got, S.fmt_state(spec)), "loss"))
         elif f[0] == "act" and f[1] == "load":
             got = impl[i].split(" ")[1] if " " in impl[i] else "?"
             if got != S.fmt_state(spec):
@@ -126,7 +165,10 @@ def run(ctx):
               "the rollback truncate, or a short write by RLIMIT_FSIZE leaving K in {0,1,15,16,17,100,400} more bytes; compactions (CLI, "
               "ForceCompaction) hit by write/fsync/rename errors; a long outage (RLIMIT_FSIZE at the file size while > 65535 minimal "
               "entries are written, then the limit is lifted; thorough: at/around the bound, three blocks' worth, a Sync and a second "
-              "batch inside the outage, a second outage on a partly written backlog); each scenario is one traced run of the real "
+              "batch inside the outage, a second outage on a partly written backlog; backlogs update one key with conflicting values); "
+              "close-retry (a failed Close or ForceCompaction, the SAME chronicler goes on); probes = what a reader sees at that moment, "
+              "also while the fault lasts; a real swamp with file-pointer events on (save / delete / write tick under RLIMIT_FSIZE, "
+              "untraced, key/value Spec as oracle); each scenario is one traced run of the real "
               "chronicler; every traced operation and its result is compared with the fault-aware model's prediction; the final load "
               "is compared with the model and with the Spec; non-trivial = log/act line; distinct = distinct op lines"),
         samples=[{"op": S.strip_hex(c.ops[i]), "impl": c.impl[i][:160]} for i in range(0, min(len(c.ops), 60), 9) if i < len(c.impl)],
